@@ -247,6 +247,16 @@ def worker(task, col):
     kinds = ['fast_return', 'fast_raise', 'raise_timeout_itself', 'work', 'near_limit', 'near_limit', 'near_limit',
              'blocked', 'swallow_once', 'native_sleep', 'nested']
     n = task['hi'] - task['lo']
+    if task['shard'] == 0:
+        # fixed witness of known finding KF-TL-NESTED: the outer limit expires while the outer worker is inside a
+        # nested run_timeout whose own limit has not expired yet
+        for rep in range(3):
+            col.evaluations += 1
+            inj.set()
+            one_call('nested', 'w-%d' % rep, .02, (.03, .2), col, rnd, baseline, {'switch': sw, 'inject': None,
+                                                                                   'witness': True})
+            with LOG_LOCK:
+                del LOG[:]
     for i in range(n):
         call_id = '%d-%d' % (task['shard'], i)
         kind = kinds[i % len(kinds)] if task.get('mode') != 'back_to_back' else rnd.choice(kinds[:8])
